@@ -284,7 +284,7 @@ func runE2E(r *vkit.Run, w *world, round int) {
 			{name: "url-user-only", ui: url.User(id), has: true, set: true, user: id},
 			{name: "url-right", ui: url.UserPassword(id, right), has: true, set: true, user: id, pass: right},
 		}
-		snis := []string{"", id + "." + domMain, strings.ToUpper(id) + "." + domMain, "x." + id + "." + domMain}
+		snis := []string{"", id + "." + domMain, strings.ToUpper(id) + "." + domMain, "x." + id + "." + domMain, id + "x" + domMain}
 		for _, p := range []string{"/dns-query", "/dns-query/" + id} {
 			for _, a := range auths {
 				combo++
@@ -324,7 +324,8 @@ func runE2E(r *vkit.Run, w *world, round int) {
 	for di, d := range w.Devs {
 		rnd := r.Rand(fmt.Sprintf("e2e-dot-sni-%d", round), di)
 		id := string(d.ID)
-		snis := []string{"", id + "." + domMain, strings.ToUpper(id + "." + domAlt), mixCase(rnd, id+"."+domMain), "x." + id + "." + domMain, id + ".foreign.example"}
+		snis := []string{"", id + "." + domMain, strings.ToUpper(id + "." + domAlt), mixCase(rnd, id+"."+domMain), "x." + id + "." + domMain, id + ".foreign.example",
+			id + "x" + domMain, strings.ToUpper(id + "-" + domAlt), id + domMain, id + ".x" + domMain, id + ".example"}
 		if d.HumanLower != "" {
 			snis = append(snis, extID(d, "otr")+"."+domMain)
 		}
